@@ -15,7 +15,7 @@ import subprocess
 from mc import kernel, trees
 
 PROP = 'C14'
-CWDS = ['root', 'slash', 'other', 'decoys']
+CWDS = ['root', 'slash', 'other', 'decoys', 'gone']       # gone = a working directory that was removed after the process entered it
 
 
 def assemble(asm, *a, **kw):
@@ -39,10 +39,10 @@ def tree_case(ctx, case):
     ref = assemble(asm, trees.spliced(case['tree']), compress=comp)
     if ref[0] != 'ok':
         raise RuntimeError('spliced reference does not assemble: %s\n%s' % (ref[1], trees.spliced(case['tree'])))
-    dirs = dict(root=os.path.dirname(main), slash='/', other=other, decoys=decoys)
+    dirs = dict(root=os.path.dirname(main), slash='/', other=other, decoys=decoys, gone=os.path.join(base, 'gone'))
     results = {}
     for c in case['cwds']:
-        with trees.cwd(dirs[c]):
+        with trees.cwd(dirs[c], gone=(c == 'gone')):
             ctx.count('runs')
             r = assemble(asm, main, include_dirs=[inc], compress=comp)
         results[c] = r
@@ -55,6 +55,8 @@ def tree_case(ctx, case):
         outp = os.path.join(base, 'out.bin')
         for c in case['cwds']:
             for rel in (False, True):
+                if c == 'gone':
+                    continue            # the command line makes its arguments absolute with the working directory; the API gets absolute paths
                 argv_main = os.path.relpath(main, dirs[c]) if rel else main
                 argv_inc = os.path.relpath(inc, dirs[c]) if rel else inc
                 if os.path.exists(outp):
@@ -195,7 +197,7 @@ def run(tier, seed, t0):
         cases.append(dict(tree=t, cwds=CWDS if tier == 'thorough' or i % 4 == 0 else ['root', 'decoys'], cli=(i % 16 == 0)))
     d3 = chains(3, trees.DIRS, trees.POSITIONS, trees.STYLES if tier == 'thorough' else ['plain'])
     for i, t in enumerate(d3):
-        cases.append(dict(tree=t, cwds=['other', 'decoys'] if i % 8 else CWDS, cli=(i % 64 == 0)))
+        cases.append(dict(tree=t, cwds=['other', 'decoys', 'gone'] if i % 8 else CWDS, cli=(i % 64 == 0)))
     # siblings: two / three includes in one file at every combination of positions and locations
     for (w1, p1), (w2, p2) in itertools.product(itertools.product(trees.DIRS, trees.POSITIONS), repeat=2):
         kids = [trees.node('a.asm', w1, p1, 'plain', [trees.node('deep.asm', 'sub', 'middle', 'dquote')]), trees.node('b.asm', w2, p2, 'comment')]
